@@ -75,25 +75,40 @@ func psSources(j int, pc psCase) (origin, partial, probe string) {
 				hasSub = true
 			}
 		}
-		if hasSub && pc.Replace != "none" {
-			fmt.Fprintf(&p, "// +gengo:partialstruct\n// +gengo:partialstruct:omit=B\ntype sub2 o%d.Sub2\n\n", j)
+		// every other case with two declarations writes them as one parenthesised group
+		grouped := hasSub && pc.Replace != "none" && len(pc.Omit)%2 == 0
+		ind := ""
+		if grouped {
+			p.WriteString("type (\n")
+			ind = "\t"
 		}
-		p.WriteString("// +gengo:partialstruct\n")
+		if hasSub && pc.Replace != "none" {
+			if grouped {
+				fmt.Fprintf(&p, "\t// +gengo:partialstruct\n\t// +gengo:partialstruct:omit=B\n\tsub2 o%d.Sub2\n\n", j)
+			} else {
+				fmt.Fprintf(&p, "// +gengo:partialstruct\n// +gengo:partialstruct:omit=B\ntype sub2 o%d.Sub2\n\n", j)
+			}
+		}
+		p.WriteString(ind + "// +gengo:partialstruct\n")
 		for _, i := range pc.Omit {
-			fmt.Fprintf(&p, "// +gengo:partialstruct:omit=F%d\n", i)
+			fmt.Fprintf(&p, "%s// +gengo:partialstruct:omit=F%d\n", ind, i)
 		}
 		if pc.Replace != "none" {
 			for i, k := range pc.Origin {
 				if k == "sub" {
 					if pc.Replace == "typeAndTag" {
-						fmt.Fprintf(&p, "// +gengo:partialstruct:replace=F%d:Sub2 %s\n", i+1, psReplTag)
+						fmt.Fprintf(&p, "%s// +gengo:partialstruct:replace=F%d:Sub2 %s\n", ind, i+1, psReplTag)
 					} else {
-						fmt.Fprintf(&p, "// +gengo:partialstruct:replace=F%d:Sub2\n", i+1)
+						fmt.Fprintf(&p, "%s// +gengo:partialstruct:replace=F%d:Sub2\n", ind, i+1)
 					}
 				}
 			}
 		}
-		fmt.Fprintf(&p, "type x o%d.T\n", j)
+		if grouped {
+			fmt.Fprintf(&p, "\tx o%d.T\n)\n", j)
+		} else {
+			fmt.Fprintf(&p, "type x o%d.T\n", j)
+		}
 	}
 	if pc.ErrShape == "none" {
 		repl := "nil"
@@ -221,6 +236,24 @@ func probe(partial, origin, replacement any) (o out) {
 	if res.IsNil() || res.Type() != ov.Type() {
 		o.Panic = "DeepCopyAs returned nil or a wrong type"
 		return
+	}
+	// empty, non-nil containers must arrive as such (reflect.DeepEqual tells them from nil ones)
+	e := reflect.New(pt)
+	for i := 0; i < pt.NumField(); i++ {
+		switch f := e.Elem().Field(i); f.Kind() {
+		case reflect.Slice:
+			f.Set(reflect.MakeSlice(f.Type(), 0, 0))
+		case reflect.Map:
+			f.Set(reflect.MakeMap(f.Type()))
+		}
+	}
+	if er := e.MethodByName("DeepCopyAs").Call(nil)[0]; !er.IsNil() {
+		for i := 0; i < pt.NumField(); i++ {
+			src := e.Elem().Field(i)
+			if k := src.Kind(); (k == reflect.Slice || k == reflect.Map) && !reflect.DeepEqual(src.Interface(), er.Elem().FieldByName(pt.Field(i).Name).Interface()) {
+				o.Unequal = append(o.Unequal, pt.Field(i).Name+"(empty)")
+			}
+		}
 	}
 	for i := 0; i < ot.NumField(); i++ {
 		name := ot.Field(i).Name
